@@ -1235,6 +1235,65 @@ def r9_compare_by_interpretation(rep, src, tier):
         rep.fail('C03.R9', bad_op[0].site, 'the comparison operators answer as the order says (interpreted)', bad_op[1], where=bad_op[0].where)
     else:
         rep.ok('C03.R9', '%s:BaseVersion' % M, 'the comparison operators answer as the order says (interpreted)', '6 operators on %d pairs' % len(sample))
+    # histories: an object that was edited -- or whose edit was REFUSED -- compares and hashes as a fresh object of the version it now
+    # shows (a refused assignment leaves it the version it was)
+    seta = mod.method('NativeVersion', '__setattr__')
+    hashf = mod.method('NativeVersion', '__hash__')
+    strf = mod.method('NativeVersion', '__str__')
+    if seta is None or hashf is None or strf is None:
+        raise AnalysisError('%s:NativeVersion.__setattr__ / __hash__ / __str__ not found' % M)
+    EDITS = [('2.0-1', 'full_version', '2.0-', None), ('2.0-1', 'full_version', '1:', None), ('1:2.0-1', 'epoch', 'x', None), ('2.0-1', 'debian_revision', '', None),
+             ('2.0-1', 'upstream_version', '2:0', None), ('1:2.0-1', 'upstream_version', '', None), ('2.0-1', 'full_version', 'a b', None),
+             ('2.0-1', 'epoch', '3', '3:2.0-1'), ('1:2.0-1', 'debian_revision', '2', '1:2.0-2'), ('2.0-1', 'upstream_version', '2.1~rc1', '2.1~rc1-1'), ('2.0-1', 'full_version', '1.0', '1.0'),
+             ('1:2.0-1', 'epoch', None, '2.0-1')]
+    PROBES = ['2.0-1', '1:2.0-1', '2.0', '2.0-', '3:2.0-1', '1:2.0-2', '2.1~rc1-1', '1.0', '2.0--1', '1:x:2.0-1', '2.0-0']
+    bad_h = None
+    for start, attr, value, becomes in EDITS:
+        def fresh(s_):
+            o_ = heap.alloc('NativeVersion', {})
+            it.call(H.Closure(init.node, {}, o_, init.cls), [s_])
+            return o_
+        v = fresh(start)
+        try:
+            it.call(H.Closure(seta.node, {}, v, seta.cls), [attr, value])
+            outcome = 'accepted'
+        except H.Raised as x:
+            outcome = 'refused' if x.exc.endswith('ValueError') else 'raises %s' % x.exc
+        now = becomes if outcome == 'accepted' and becomes is not None else start
+        label = 'v = Version(%r); v.%s = %r (%s)' % (start, attr, value, outcome)
+        if (becomes is None) != (outcome == 'refused') and outcome != 'accepted':
+            bad_h = bad_h or '%s: %s' % (label, 'a valid assignment is refused' if becomes is not None else outcome)
+            continue
+        if becomes is None and outcome == 'accepted':
+            continue          # (what the class accepts is C14's business; the object then is what it shows)
+        same = fresh(now)
+        try:
+            shown = it.call(H.Closure(strf.node, {}, v, strf.cls), [])
+            shown = shown.concrete() if hasattr(shown, 'concrete') else shown
+            if shown != now:
+                bad_h = bad_h or '%s: the object then shows %r; it must be %r' % (label, shown, now)
+                continue
+            for p_ in PROBES:
+                try:
+                    other = fresh(p_)
+                except H.Raised:
+                    continue
+                r1 = it.call(H.Closure(cmpf.node, {}, v, cmpf.cls), [other])
+                r2 = it.call(H.Closure(cmpf.node, {}, same, cmpf.cls), [other])
+                sg = lambda r_: (r_ > 0) - (r_ < 0) if isinstance(r_, int) and not isinstance(r_, bool) else r_          # noqa: E731
+                if sg(r1) != sg(r2):
+                    bad_h = bad_h or '%s: the object shows %r and compares with Version(%r) as %r; a fresh Version(%r) compares as %r' % (label, now, p_, sg(r1), now, sg(r2))
+            h1 = it.call(H.Closure(hashf.node, {}, v, hashf.cls), [])
+            h2 = it.call(H.Closure(hashf.node, {}, same, hashf.cls), [])
+            if h1 != h2:
+                bad_h = bad_h or '%s: the object shows %r and hashes differently from a fresh Version(%r)' % (label, now, now)
+        except H.Raised as x:
+            bad_h = bad_h or '%s: comparing / hashing the object afterwards raises %s' % (label, x.exc)
+    if bad_h:
+        rep.fail('C03.R9', seta.site, 'an edited object -- and one whose edit was refused -- compares and hashes as the version it shows (interpreted histories)', bad_h, where=seta.where)
+    else:
+        rep.ok('C03.R9', seta.site, 'an edited object -- and one whose edit was refused -- compares and hashes as the version it shows (interpreted histories)',
+               '%d assignments, each followed by %d comparisons and a hash' % (len(EDITS), len(PROBES)))
     vc = mod.funcs.get('version_compare')
     if vc is None:
         raise AnalysisError('%s:version_compare not found' % M)
